@@ -103,11 +103,15 @@ Enabled(arg, mode, env) ==
 \* callable kinds of the configuration table: besides functions, methods and classes, an object with __call__ and a
 \* functools.partial (neither function nor method), and - for invariants - a plain subclass of a class that already
 \* has (enabled) invariants and defines a method of its own
+\* a contract written ABOVE @staticmethod / @classmethod is handed the descriptor object: what an enabled decorator makes
+\* of it is not specified, a disabled one must hand the very object back like any other
+DescriptorKinds == {"staticmethod_obj", "classmethod_obj"}
 ConfigCells == {[t |-> "config", d |-> d, arg |-> a, mode |-> m, env |-> e, c |-> c] :
                   d \in Decorators, a \in EnabledArgs, m \in Modes, e \in EnvSlow,
-                  c \in {"function", "method", "async_function", "class", "callable_object", "partial", "subclass"}}
+                  c \in {"function", "method", "async_function", "class", "callable_object", "partial", "subclass"}
+                        \cup DescriptorKinds}
 ConfigApplies(d, c) == /\ (d = "invariant") = (c \in {"class", "subclass"})
-                       /\ (c \in {"callable_object", "partial"} => d \in {"require", "ensure"})
+                       /\ (c \in {"callable_object", "partial"} \cup DescriptorKinds => d \in {"require", "ensure"})
 \* a contract that is explicitly enabled is applied in every mode; one that is explicitly disabled in none
 ModeIndependent ==
   cell.t = "config" =>
@@ -202,7 +206,7 @@ SameCalls == (cell.t = "calls" /\ CallApplies(cell)) => CallExpected(cell) = "sa
 Cells == CASE Table = "calls" -> {c \in CallCells : CallApplies(c)}
            [] Table = "meta" -> {c \in MetaCells : MetaApplies(c)}
            [] Table = "misuse" -> {c \in MisuseCells : MisuseApplies(c.m, c.d, c.c)}
-           [] Table = "config" -> {c \in ConfigCells : ConfigApplies(c.d, c.c)}
+           [] Table = "config" -> {c \in ConfigCells : ConfigApplies(c.d, c.c) /\ (c.c \in DescriptorKinds => ~Enabled(c.arg, c.mode, c.env))}
            [] Table = "ctor" -> {c \in CtorCells : CtorApplies(c)}
 TInit == cell \in Cells
 TNext == UNCHANGED tvars
